@@ -1,6 +1,6 @@
 (* C03 - proofs about the GENERATED integration kernels: they equal the documented update equations; the linear
    one is exact in the step size (semigroup, closed form over n steps, contraction to the steady state, no
-   threshold crossing from below when the steady state is sub-threshold); the other two are Euler steps. *)
+   threshold crossing from below when the steady state is sub-threshold); the other two are Euler steps (EulerProofs.v). *)
 From Coq Require Import List ZArith Bool Reals Lra Lia.
 From Flocq Require Import Core.Raux.
 From Inferno Require Import Base.Num Base.NumR Gen.NeuronDynamics Gen.NeuronAdaptation C03.Neuron C03.NeuronSpec.
@@ -10,26 +10,12 @@ Local Notation exp := Rtrigo_def.exp.
 
 (* ------------------------------------------------------------------ Part D: integration kernels *)
 Local Notation vil := (voltage_integration_linear RN).
-Local Notation viq := (voltage_integration_quadratic RN).
-Local Notation vie := (voltage_integration_exponential RN).
 
 (* documented: V(t+dt) = [V(t) - V_rest - R I] exp(-dt/tau) + V_rest + R I *)
 Theorem integration_linear_formula :
   forall I v dt tau rest Rm : R,
     vil I v dt tau rest Rm = (v - rest - Rm * I) * exp (- dt / tau) + rest + Rm * I.
 Proof. intros. unfold voltage_integration_linear. rn_simpl. ring. Qed.
-
-(* documented: Euler step of  tau dV/dt = a (V - V_rest)(V - V_crit) + R I *)
-Theorem integration_quadratic_euler :
-  forall I v dt rest crit a tau Rm : R,
-    viq I v dt rest crit a tau Rm = v + dt * ((a * (v - rest) * (v - crit) + Rm * I) / tau).
-Proof. intros. unfold voltage_integration_quadratic. rn_simpl. unfold Rdiv. ring. Qed.
-
-(* documented: Euler step of  tau dV/dt = -(V - V_rest) + D exp((V - V_T)/D) + R I *)
-Theorem integration_exponential_euler :
-  forall I v dt rest rheo D tau Rm : R,
-    vie I v dt rest rheo D tau Rm = v + dt * ((- (v - rest) + D * exp ((v - rheo) / D) + Rm * I) / tau).
-Proof. intros. unfold voltage_integration_exponential. rn_simpl. unfold Rdiv. ring. Qed.
 
 (* The linear kernel is EXACT in the step size: integrating s1 and then s2 under a constant input is
    integrating s1 + s2 (so the result does not depend on how the interval is cut into steps). *)
